@@ -14,10 +14,10 @@ PROP = dict(
                    "structs from an addressable root), reflect.StructTag.Lookup as a first-match pair list, the fixed order of "
                    "t.Field(i). `writes` = fields owning a Property: a processor can only write through property.Value; a user processor "
                    "that keeps other pointers is outside the model. reflect.StructOf cannot build embedded types with methods or unexported "
-                   "embedded fields: those are covered by four static types only.",
+                   "embedded fields: those are covered by six static types only.",
         subs=[dict(sub="scan", n_quick=800, n_thorough=30000)],
         thorough_seeds=2,
-        rule="n shapes; per shape the flattened form, the generated nesting (depth 0-5, thorough 0-8) and 1 (thorough 2) random re-nesting of "
+        rule="half of the shapes repeat a field name in sibling embedded structs or repeat an embedded struct type under two parents (ambiguous promoted names, diamonds); n shapes; per shape the flattened form, the generated nesting (depth 0-5, thorough 0-8) and 1 (thorough 2) random re-nesting of "
              "the same units: leaves string/int/bool/Logger/provider pointer/interfaces, exported or unexported, untagged 22%, foreign 14%, "
              "malformed 4%, custom tag 10%, recognised 50% over wire/func/value/prop/prefix/logger (with duplicates, shadowed prop, extra "
              "arguments); structs embedded untagged (descended), embedded tagged, embedded pointer, named, ScanGrp, ConfigurationProperties marker; "
